@@ -439,6 +439,10 @@ class State:
                     memo[id(v)] = n_ = type(v)([])
                     n_.items.extend(clone(x_) for x_ in v.items)
                 return memo[id(v)]
+            if type(v).__name__ == "VPySet":
+                if id(v) not in memo:
+                    memo[id(v)] = type(v)(v.items)
+                return memo[id(v)]
             return v
         s.locals = {k_: clone(v_) for k_, v_ in self.locals.items()}
         s.heap = {k_: (clone(v_) if isinstance(k_, tuple) and k_ and k_[0] == "pyobj" else v_) for k_, v_ in self.heap.items()}
@@ -1080,7 +1084,7 @@ class Engine:
             raise Unsupported(f"attribute {base.cls}.{n.attr}")
         if isinstance(base, VOpaque) and isinstance(base.tag, tuple) and base.tag[0] == "map" and n.attr in ("keys", "values", "items", "copy"):
             return VBound(base, n.attr)
-        if isinstance(base, VPySet) and n.attr in ("issubset", "issuperset", "union", "intersection", "difference"):
+        if isinstance(base, VPySet) and n.attr in ("issubset", "issuperset", "union", "intersection", "difference", "discard", "add", "clear"):
             return VBound(base, n.attr)
         if isinstance(base, VTuple) and n.attr in ("index", "append", "copy", "count", "insert"):
             return VBound(base, n.attr)
@@ -1130,6 +1134,8 @@ class Engine:
         raise Unsupported("unary")
 
     def truth(self, v):
+        if hasattr(v, "vtruth"):
+            return v.vtruth(self)
         if isinstance(v, VBool):
             return v.e
         if isinstance(v, VOptNum):
@@ -1576,6 +1582,13 @@ class Engine:
             return VStr("<formatted>")
         if isinstance(f, VBound) and isinstance(f.recv, VOpaque):
             return f.recv          # keys()/values()/copy() of an abstract finite map: same size
+        if isinstance(f, VBound) and isinstance(f.recv, VPySet) and f.name in ("discard", "add", "clear"):      # in-place mutation of a python set with concrete members
+            if f.name == "clear":
+                f.recv.items = frozenset()
+            else:
+                k_ = self.key_of(args[0])
+                f.recv.items = (f.recv.items - {k_}) if f.name == "discard" else (f.recv.items | {k_})
+            return VNone()
         if isinstance(f, VBound) and isinstance(f.recv, VPySet):
             o = args[0].items if isinstance(args[0], VPySet) else frozenset(self.key_of(x_) for x_ in args[0].items)
             if f.name == "issubset":
@@ -1972,6 +1985,8 @@ class Engine:
                 raise Unsupported("unpacking " + ast.unparse(t))
             for tt, vv in zip(t.elts, v.items):
                 self.store(tt, vv, st)
+        elif isinstance(t, ast.Attribute) and hasattr(self.ev(t.value, st), "vsetattr"):
+            self.ev(t.value, st).vsetattr(self, st, t.attr, v)          # duck protocol: attribute assignment on a contract-defined value
         elif isinstance(t, ast.Attribute) and isinstance(self.ev(t.value, st), VNode):
             nd_ = self.ev(t.value, st)
             st.ghost = dict(st.ghost)
